@@ -38,7 +38,7 @@ from dataclasses import dataclass
 from happysimulator.core.clock import Clock
 from happysimulator.core.entity import Entity
 from happysimulator.core.event import Event
-from happysimulator.core.temporal import Instant
+from happysimulator.core.temporal import Duration, Instant
 
 logger = logging.getLogger(__name__)
 
@@ -129,6 +129,10 @@ class DistributedRateLimiter(Entity):
         self._backing_store = backing_store
         self._global_limit = global_limit
         self._window_size = window_size
+        # Window length in integer nanoseconds so that window alignment is
+        # exact on the simulation's nanosecond time grid (float floor division
+        # puts instants such as 0.3 s into the window that has just ended).
+        self._window_ns = max(1, Duration.from_seconds(window_size).nanoseconds)
         self._key_prefix = key_prefix
         self._local_threshold = local_threshold
 
@@ -201,7 +205,7 @@ class DistributedRateLimiter(Entity):
 
     def _get_window_id(self, now: Instant) -> int:
         """Calculate the window ID for the given time."""
-        return int(now.to_seconds() // self._window_size)
+        return now.nanoseconds // self._window_ns
 
     def _get_counter_key(self, window_id: int) -> str:
         """Generate the key for storing the window counter."""
